@@ -206,6 +206,19 @@ def pinned_corpus():
     ]
 
 
+def alternative_shapes():
+    """stanza shapes that the serialiser of the class itself can emit but no fixture / docstring shows: one child out of a closed set of
+    kinds.  The fixture of CallProtocolEntity has an <offer> child; the class reads and writes five kinds."""
+    from yowsup.structs import ProtocolTreeNode as N
+    from yowsup.layers.protocol_calls.protocolentities import CallProtocolEntity
+    S = 's.whatsapp.net'
+    out = []
+    for kind in ('offer', 'transport', 'relaylatency', 'reject', 'terminate'):
+        out.append((CallProtocolEntity, N('call', {'t': '1400000000', 'offline': '0', 'id': '1234-5', 'from': '4915100000001@' + S, 'notify': 'n',
+                                                  'retry': '1', 'e': '0'}, [N(kind, {'call-id': 'c4ll1d'})]), 'Call(%s)' % kind))
+    return out
+
+
 def discover():
     classes = {}
     for p in sorted(glob.glob(os.path.join(REPO, 'yowsup', 'layers', '*', 'protocolentities', '*.py'))):
@@ -446,7 +459,7 @@ def run(tier, seed, out):
         classes = discover()
         with_fixture = {c.__name__ for c, _, _ in cases}
         doc_cases = docstring_corpus(with_fixture)
-        cases = cases + doc_cases + pinned_corpus()
+        cases = cases + doc_cases + pinned_corpus() + alternative_shapes()
         covered = {c.__name__ for c, _, _ in cases}
         res['samples'].append({'entity_classes_found': len(classes), 'with_fixture': len(with_fixture & set(classes)),
                                'docstring_shapes_used': len(doc_cases), 'classes_covered': len(covered & set(classes)),
